@@ -288,7 +288,6 @@ def cbmc_cmd(inst, gb, witness):
     cmd += ["--malloc-may-fail", "--malloc-fail-null"] if inst.malloc_fail else ["--no-malloc-may-fail"]
     cmd += list(inst.extra_cbmc)
     if witness:
-        cmd += ["--stop-on-fail"]
         sol = "cadical"
     else:
         cmd += ["--unwinding-assertions", "--trace"] + list(inst.checks)
